@@ -37,6 +37,13 @@ def div_topo(state, state_dict=None, **kw):
     return [state - half, half]
 
 
+def _topocfg_divider(value, state=None, config=None):
+    """A divider declared with both `topology` and `config`: the first daughter
+    gets the configured amount w, the second the variable k names (the mother's n)."""
+    w = (config or {}).get('w', 0)
+    return [w, (state or {}).get('k', 0)]
+
+
 def div_branch(state):
     """Branch-level divider: the first daughter keeps g1, the second keeps g2."""
     return [{'g1': state['g1'], 'g2': 0}, {'g1': 0, 'g2': state['g2']}]
@@ -62,6 +69,8 @@ def register():
         def topo(state, state_=None, **kw):
             return div_topo(state, kw.get('state', state_))
         divider_registry.register('verif_topo', _topo_divider)
+    if divider_registry.access('verif_topocfg') is None:
+        divider_registry.register('verif_topocfg', _topocfg_divider)
 
 
 def _topo_divider(value, state=None):
@@ -93,6 +102,9 @@ VAR_MENU = {
 
 # variables that hold None (their declared default) when a cell divides; their
 # dividers do not look at the value (added through a stream of their own)
+# a divider declared with `topology` and `config` together (own stream as well)
+TOPOCFG_VAR = {'tc': {'default': 1, 'divider': {'divider': 'verif_topocfg', 'topology': {'k': ['..', 'n']},
+                                              'config': {'w': 37}}, 'updater': 'set'}}
 NONE_VARS = {
     'cn': {'default': None, 'divider': {'divider': 'set_value', 'config': {'value': 42}}, 'updater': 'set'},
     'zn': {'default': None, 'divider': 'zero', 'updater': 'set'},
@@ -102,7 +114,7 @@ NONE_VARS = {
 def _state_for(r, cellvars, p=50, extreme=False):
     st = {}
     for v, a in cellvars.items():
-        if v in ('t', 'u', 'd', 'sd', 'lst', 'grp') or v in NONE_VARS:
+        if v in ('t', 'u', 'd', 'sd', 'lst', 'grp', 'tc') or v in NONE_VARS:
             continue
         if r.chance(p):
             if v == 'q':
@@ -130,6 +142,7 @@ def gen_case(seed):
     }
     # (own stream: the cases of earlier seeds keep their shape)
     del_party = Rng(derive(seed, 'del_party')).chance(25)
+    gen_empty = Rng(derive(seed, 'gen_empty')).chance(25)
     names = ['n'] + r.sample([v for v in VAR_MENU if v not in ('n', 't')], r.rint(1, 5))
     if swarm['steps']:
         names.append('t')
@@ -138,6 +151,8 @@ def gen_case(seed):
     if rn.chance(20):
         for v in rn.sample(sorted(NONE_VARS), rn.rint(1, 2)):
             cellvars[v] = copy.deepcopy(NONE_VARS[v])
+    if Rng(derive(seed, 'topocfg')).chance(20):
+        cellvars['tc'] = copy.deepcopy(TOPOCFG_VAR['tc'])
     tsmax = r.pick([4, 8, 16])
 
     def proc_spec(name):
@@ -207,6 +222,8 @@ def gen_case(seed):
             menu += [['del_party', rr.below(4), rr.below(6)]] * 2
         if swarm['gen']:
             menu += [['gen', rr.pick(['cellA', 'cellB']), _state_for(rr, cellvars)]] * 2
+        if gen_empty:
+            menu += [['gen_empty', _state_for(rr, cellvars)]]
         if swarm['div']:
             mode = 'explicit' if swarm['explicit'] and rr.chance(60) else 'copy'
             st1 = _state_for(rr, cellvars, 20) if rr.chance(40) else {}
@@ -240,7 +257,7 @@ def gen_case(seed):
         # issue conflicting operations on one cell in the same batch
         for _ in range(20):
             o = op(rr)
-            if o[0] in ('noop', 'add', 'gen', 'write', 'add_leaf'):
+            if o[0] in ('noop', 'add', 'gen', 'gen_empty', 'write', 'add_leaf'):
                 return o
         return ['noop']
 
@@ -686,7 +703,8 @@ class HModel:
                     for kk, vv in ((g.get('initial_state') or {}).get('vars') or {}).items():
                         if kk in cell.vars:
                             cell.vars[kk] = _dec(vv)
-                    cell.parties.update(parties_of(self.case['templates'][tname]))
+                    if tname:
+                        cell.parties.update(parties_of(self.case['templates'][tname]))
                     cell.template = cell.template or tname
                     self.replaced.append((store, key))
                 else:
@@ -761,6 +779,8 @@ class HModel:
                     out.append(k)
             return out
         names = sorted(flat(g.get('processes')) + flat(g.get('steps')))
+        if not names:
+            return None       # a compartment of state only
         for tname, t in self.case['templates'].items():
             tn = sorted([p['name'] for p in t.get('procs', [])] + [s['name'] for s in t.get('steps', [])])
             if tn == names:
@@ -885,6 +905,8 @@ def law(v, a, m, shares, explicit, cellvars, mother_vars):
     elif name == 'verif_topo':
         k = mother_vars.get('n')
         want = div_topo(m, {'k': k})
+    elif name == 'verif_topocfg':
+        want = _topocfg_divider(m, {'k': mother_vars.get('n')}, d['config'])
     elif name == 'split':
         if hasattr(m, 'magnitude'):
             want = [m / 2, m / 2]
